@@ -1,8 +1,762 @@
-From Coq Require Import ZArith List Bool String Lia.
+(* C20 -- lemmas about the SRTM30 model (Model/C20_srtm.v). *)
+From Coq Require Import ZArith List Bool String Lia ZifyBool.
 From TyphonGen Require Import C20_tiles.
 From Typhon Require Import Model.C20_srtm.
 Import ListNotations.
 Open Scope Z_scope.
+Ltac Zify.zify_post_hook ::= Z.to_euclidean_division_equations.
+
+(* ------------------------------------------------------------------ zrange / arange *)
+
+Lemma zrange_length : forall n a, List.length (zrange a n) = n.
+Proof. induction n as [|n IH]; intros a; cbn [zrange List.length]; [reflexivity|now rewrite IH]. Qed.
+
+Lemma in_zrange : forall n a x, In x (zrange a n) <-> a <= x < a + Z.of_nat n.
+Proof.
+  induction n as [|n IH]; intros a x; cbn [zrange In].
+  - split; [tauto|lia].
+  - rewrite IH. lia.
+Qed.
+
+Lemma nth_zrange : forall n a k d, (k < n)%nat -> nth k (zrange a n) d = a + Z.of_nat k.
+Proof.
+  induction n as [|n IH]; intros a k d Hk; [lia|].
+  destruct k as [|k]; cbn [zrange nth]; [lia|]. rewrite IH by lia. lia.
+Qed.
+
+Lemma map_zrange_shift : forall {A} (f : Z -> A) n a s,
+  map f (zrange (a + s) n) = map (fun i => f (i + s)) (zrange a n).
+Proof.
+  intros A f; induction n as [|n IH]; intros a s; cbn [zrange map]; [reflexivity|].
+  f_equal. replace (a + s + 1) with ((a + 1) + s) by lia. apply IH.
+Qed.
+
+Lemma arange_nil : forall a b, b <= a -> arange a b = [].
+Proof. intros a b Hab. unfold arange. replace (Z.to_nat (b - a)) with O by lia. reflexivity. Qed.
+
+Lemma arange_cons : forall a b, a < b -> arange a b = a :: arange (a + 1) b.
+Proof.
+  intros a b Hab. unfold arange.
+  replace (Z.to_nat (b - a)) with (S (Z.to_nat (b - (a + 1)))) by lia. reflexivity.
+Qed.
+
+Lemma in_arange : forall a b x, In x (arange a b) <-> a <= x < b.
+Proof. intros a b x. unfold arange. rewrite in_zrange. lia. Qed.
+
+(* ------------------------------------------------------------------ trunc *)
+
+Lemma trunc_spec : forall num D, 0 < D -> 0 <= num ->
+  trunc num D * D <= num < (trunc num D + 1) * D.
+Proof.
+  intros num D HD Hn. unfold trunc. rewrite Z.quot_div_nonneg by lia.
+  pose proof (Z.mul_div_le num D HD) as H1.
+  pose proof (Z.mul_succ_div_gt num D HD) as H2. lia.
+Qed.
+
+Lemma mul_lt_cancel : forall a b D, 0 < D -> a * D < b * D -> a < b.
+Proof. intros a b D HD Hab. apply (Z.mul_lt_mono_pos_r D); assumption. Qed.
+
+Lemma mul_le_lt_cancel : forall a b c D, 0 < D -> a * D <= c -> c < b * D -> a < b.
+Proof. intros a b c D HD H1 H2. apply (mul_lt_cancel a b D HD). lia. Qed.
+
+(* the four index bounds of get_native_grids, inside the covered area *)
+Lemma rows_cols_spec : forall r, in_coverage r ->
+  let D := rD r in
+  (row_top r - 1) * D <= rowq D (rlat1 r) < row_top r * D /\
+  (row_bot r - 1) * D < rowq D (rlat0 r) <= row_bot r * D /\
+  col_left r * D <= colq D (rlon0 r) < (col_left r + 1) * D /\
+  col_right r * D < colq D (rlon1 r) <= (col_right r + 1) * D.
+Proof.
+  intros r (HD & H1 & H2 & H3 & H4 & H5 & H6). cbv zeta.
+  assert (Q1 : 0 <= rowq (rD r) (rlat1 r)) by (unfold rowq; lia).
+  assert (Q0 : 0 <= rowq (rD r) (rlat0 r)) by (unfold rowq; lia).
+  assert (P0 : 0 <= colq (rD r) (rlon0 r)) by (unfold colq; lia).
+  assert (P1 : 0 <= colq (rD r) (rlon1 r)) by (unfold colq; lia).
+  pose proof (trunc_spec _ _ HD Q1) as T1. pose proof (trunc_spec _ _ HD Q0) as T0.
+  pose proof (trunc_spec _ _ HD P0) as S0. pose proof (trunc_spec _ _ HD P1) as S1.
+  unfold row_top, row_bot, col_left, col_right. cbv zeta.
+  destruct (trunc (rowq (rD r) (rlat0 r)) (rD r) * rD r <? rowq (rD r) (rlat0 r)) eqn:E0;
+  destruct (trunc (colq (rD r) (rlon1 r)) (rD r) * rD r <? colq (rD r) (rlon1 r)) eqn:E1;
+  repeat split; lia.
+Qed.
+
+Lemma rows_cols_range : forall r, in_coverage r ->
+  1 <= row_top r /\ row_top r <= row_bot r /\ row_bot r <= 18000 /\
+  0 <= col_left r /\ col_left r <= col_right r /\ col_right r <= 43199.
+Proof.
+  intros r Hc. pose proof (rows_cols_spec r Hc) as S. cbv zeta in S.
+  destruct Hc as (HD & H1 & H2 & H3 & H4 & H5 & H6).
+  destruct S as ((A1 & A2) & (B1 & B2) & (C1 & C2) & (E1 & E2)).
+  unfold rowq, colq in *.
+  assert (0 < row_top r) by (apply (mul_le_lt_cancel 0 (row_top r) ((90 * rD r - rlat1 r) * 120) (rD r)); lia).
+  assert (row_top r - 1 < row_bot r)
+    by (apply (mul_le_lt_cancel _ _ ((90 * rD r - rlat1 r) * 120) (rD r)); lia).
+  assert (row_bot r - 1 < 18000)
+    by (apply (mul_lt_cancel _ _ (rD r)); lia).
+  assert (-1 < col_left r) by (apply (mul_lt_cancel _ _ (rD r)); lia).
+  assert (col_left r < col_right r + 1)
+    by (apply (mul_le_lt_cancel _ _ ((rlon0 r + 180 * rD r) * 120) (rD r)); lia).
+  assert (col_right r < 43200) by (apply (mul_lt_cancel _ _ (rD r)); lia).
+  lia.
+Qed.
+
+(* ------------------------------------------------------------------ shape of the native grids *)
+
+Lemma steps_lat : forall n a, steps (-2) (map lat_hc (zrange a n)) = true.
+Proof.
+  induction n as [|n IH]; intros a; [reflexivity|].
+  destruct n as [|n]; [reflexivity|].
+  specialize (IH (a + 1)). cbn [zrange map steps] in *. rewrite IH. unfold lat_hc. lia.
+Qed.
+
+Lemma steps_lon : forall n a, steps 2 (map lon_hc (zrange a n)) = true.
+Proof.
+  induction n as [|n IH]; intros a; [reflexivity|].
+  destruct n as [|n]; [reflexivity|].
+  specialize (IH (a + 1)). cbn [zrange map steps] in *. rewrite IH. unfold lon_hc. lia.
+Qed.
+
+Lemma last_map_zrange : forall (f : Z -> Z) n a d, last (map f (zrange a (S n))) d = f (a + Z.of_nat n).
+Proof.
+  intros f; induction n as [|n IH]; intros a d.
+  - cbn. f_equal. lia.
+  - specialize (IH (a + 1) d). cbn [zrange map] in *. cbn [last].
+    cbn [last] in IH. rewrite IH. f_equal. lia.
+Qed.
+
+Lemma native_lats_eq : forall r, in_coverage r ->
+  exists n, native_lats r = map lat_hc (zrange (row_top r) (S n)) /\ Z.of_nat n = row_bot r - row_top r.
+Proof.
+  intros r Hc. pose proof (rows_cols_range r Hc) as R.
+  exists (Z.to_nat (row_bot r - row_top r)). split; [|lia].
+  unfold native_lats, arange. f_equal. f_equal. lia.
+Qed.
+
+Lemma native_lons_eq : forall r, in_coverage r ->
+  exists m, native_lons r = map lon_hc (zrange (col_left r) (S m)) /\ Z.of_nat m = col_right r - col_left r.
+Proof.
+  intros r Hc. pose proof (rows_cols_range r Hc) as R.
+  exists (Z.to_nat (col_right r - col_left r)). split; [|lia].
+  unfold native_lons, arange. f_equal. f_equal. lia.
+Qed.
+
+Lemma native_lat_ok : forall r, in_coverage r -> lat_ok r (native_lats r) = true.
+Proof.
+  intros r Hc. destruct (native_lats_eq r Hc) as (n & E & Hn).
+  pose proof (rows_cols_spec r Hc) as S. cbv zeta in S.
+  destruct S as ((A1 & A2) & (B1 & B2) & _).
+  unfold lat_ok. rewrite E. cbn [zrange map].
+  change (lat_hc (row_top r) :: map lat_hc (zrange (row_top r + 1) n))
+    with (map lat_hc (zrange (row_top r) (S n))).
+  rewrite last_map_zrange, steps_lat.
+  replace (row_top r + Z.of_nat n) with (row_bot r) by lia.
+  unfold rowq, lat_hc in *.
+  assert ((21601 - 2 * row_top r) mod 2 = 1).
+  { replace (21601 - 2 * row_top r) with (1 + (10800 - row_top r) * 2) by lia.
+    rewrite Z.mod_add by lia. reflexivity. }
+  lia.
+Qed.
+
+Lemma native_lon_ok : forall r, in_coverage r -> lon_ok r (native_lons r) = true.
+Proof.
+  intros r Hc. destruct (native_lons_eq r Hc) as (m & E & Hm).
+  pose proof (rows_cols_spec r Hc) as S. cbv zeta in S.
+  destruct S as (_ & _ & (C1 & C2) & (E1 & E2)).
+  unfold lon_ok. rewrite E. cbn [zrange map].
+  change (lon_hc (col_left r) :: map lon_hc (zrange (col_left r + 1) m))
+    with (map lon_hc (zrange (col_left r) (S m))).
+  rewrite last_map_zrange, steps_lon.
+  replace (col_left r + Z.of_nat m) with (col_right r) by lia.
+  unfold colq, lon_hc in *.
+  assert ((-43199 + 2 * col_left r) mod 2 = 1).
+  { replace (-43199 + 2 * col_left r) with (1 + (col_left r - 21600) * 2) by lia.
+    rewrite Z.mod_add by lia. reflexivity. }
+  lia.
+Qed.
+
+Lemma native_grid_ok : forall r, in_coverage r -> grid_ok r (native_lats r) (native_lons r) = true.
+Proof. intros r Hc. unfold grid_ok. now rewrite native_lat_ok, native_lon_ok. Qed.
+
+(* what the boolean checker says, in words *)
+Lemma lat_ok_sound : forall r lats, lat_ok r lats = true ->
+  exists top n, lats = top :: n /\ top mod 2 = 1 /\
+    (forall k, (S k < List.length lats)%nat -> nth (S k) lats 0 = nth k lats 0 - 2) /\
+    240 * rlat1 r <= (top + 1) * rD r /\ (top + 1 - 2) * rD r < 240 * rlat1 r /\
+    (last lats top - 1) * rD r <= 240 * rlat0 r /\ 240 * rlat0 r < (last lats top - 1 + 2) * rD r.
+Proof.
+  intros r lats H. unfold lat_ok in H. destruct lats as [|top n]; [discriminate|]. cbv zeta in H.
+  rewrite !andb_true_iff in H. destruct H as (((((P1 & St) & P2) & P3) & P4) & P5).
+  exists top, n. split; [reflexivity|].
+  assert (G : forall l k, steps (-2) l = true -> (S k < List.length l)%nat -> nth (S k) l 0 = nth k l 0 - 2).
+  { induction l as [|x l IH]; intros k Hs Hk; [cbn in Hk; lia|].
+    destruct l as [|y l]; [cbn in Hk; lia|].
+    cbn [steps] in Hs. apply andb_prop in Hs. destruct Hs as [Hs1 Hs2].
+    destruct k as [|k]; [cbn; lia|].
+    change (nth (S (S k)) (x :: y :: l) 0) with (nth (S k) (y :: l) 0).
+    change (nth (S k) (x :: y :: l) 0) with (nth k (y :: l) 0).
+    apply IH; [exact Hs2|cbn in Hk |- *; lia]. }
+  split; [lia|]. split; [intros k Hk; apply G; assumption|]. lia.
+Qed.
+
+Lemma lon_ok_sound : forall r lons, lon_ok r lons = true ->
+  exists lft n, lons = lft :: n /\ lft mod 2 = 1 /\
+    (forall k, (S k < List.length lons)%nat -> nth (S k) lons 0 = nth k lons 0 + 2) /\
+    (lft - 1) * rD r <= 240 * rlon0 r /\ 240 * rlon0 r < (lft - 1 + 2) * rD r /\
+    240 * rlon1 r <= (last lons lft + 1) * rD r /\ (last lons lft + 1 - 2) * rD r < 240 * rlon1 r.
+Proof.
+  intros r lons H. unfold lon_ok in H. destruct lons as [|lft n]; [discriminate|]. cbv zeta in H.
+  rewrite !andb_true_iff in H. destruct H as (((((P1 & St) & P2) & P3) & P4) & P5).
+  exists lft, n. split; [reflexivity|].
+  assert (G : forall l k, steps 2 l = true -> (S k < List.length l)%nat -> nth (S k) l 0 = nth k l 0 + 2).
+  { induction l as [|x l IH]; intros k Hs Hk; [cbn in Hk; lia|].
+    destruct l as [|y l]; [cbn in Hk; lia|].
+    cbn [steps] in Hs. apply andb_prop in Hs. destruct Hs as [Hs1 Hs2].
+    destruct k as [|k]; [cbn; lia|].
+    change (nth (S (S k)) (x :: y :: l) 0) with (nth (S k) (y :: l) 0).
+    change (nth (S k) (x :: y :: l) 0) with (nth k (y :: l) 0).
+    apply IH; [exact Hs2|cbn in Hk |- *; lia]. }
+  split; [lia|]. split; [intros k Hk; apply G; assumption|]. lia.
+Qed.
+
+(* ------------------------------------------------------------------ the table *)
 
 Lemma table_ok_holds : table_ok = true.
 Proof. vm_compute. reflexivity. Qed.
+
+Lemma table_parts :
+  (1 <? H) = true /\ (1 <? W) = true /\
+  forallb tile_shape_ok tiles = true /\
+  forallb (fun a => forallb (fun b => tile_eqb a b || disjoint_b a b) tiles) tiles = true /\
+  forallb (fun b => existsb (box_in b) tiles) boxes = true /\
+  nodup_names tiles = true /\
+  forallb (fun t => String.eqb (tname t) (srtm_name (tlon0 t) (tlat1 t))) tiles = true.
+Proof. pose proof table_ok_holds as T. unfold table_ok in T. rewrite !andb_true_iff in T. tauto. Qed.
+
+Record tile_facts (t : tile) : Prop := {
+  tf_h : (tlat1 t - tlat0 t) * 120 = H;
+  tf_w : (tlon1 t - tlon0 t) * 120 = W;
+  tf_lat0 : -60 <= tlat0 t; tf_lat1 : tlat1 t <= 90;
+  tf_lon0 : -180 <= tlon0 t; tf_lon1 : tlon1 t <= 180 }.
+
+Lemma HW_pos : 1 < H /\ 1 < W.
+Proof. destruct table_parts as (A & B & _). lia. Qed.
+
+Lemma tile_facts_of : forall t, In t tiles -> tile_facts t.
+Proof.
+  intros t Ht. destruct table_parts as (_ & _ & S & _).
+  rewrite forallb_forall in S. specialize (S t Ht). unfold tile_shape_ok in S.
+  constructor; lia.
+Qed.
+
+Lemma tile_eqb_eq : forall a b, tile_eqb a b = true -> a = b.
+Proof.
+  intros [[[[n1 a1] b1] c1] d1] [[[[n2 a2] b2] c2] d2]. unfold tile_eqb. cbn.
+  intros E. rewrite !andb_true_iff in E. destruct E as ((((En & E1) & E2) & E3) & E4).
+  apply String.eqb_eq in En. subst n2.
+  repeat f_equal; lia.
+Qed.
+
+Lemma tiles_disjoint : forall a b, In a tiles -> In b tiles -> a = b \/ disjoint_b a b = true.
+Proof.
+  intros a b Ha Hb. destruct table_parts as (_ & _ & _ & S & _).
+  rewrite forallb_forall in S. specialize (S a Ha). rewrite forallb_forall in S. specialize (S b Hb).
+  destruct (tile_eqb a b) eqn:E; [left; now apply tile_eqb_eq|right; exact S].
+Qed.
+
+Lemma find_tile_in : forall t, In t tiles -> find_tile (tname t) = Some t.
+Proof.
+  intros t Ht. destruct table_parts as (_ & _ & _ & _ & _ & S & _).
+  unfold find_tile. revert S Ht. generalize tiles as l.
+  induction l as [|u l IH]; intros S Ht; [contradiction|].
+  cbn [nodup_names] in S. apply andb_prop in S. destruct S as [S1 S2]. cbn [find].
+  destruct Ht as [->|Ht].
+  - now rewrite String.eqb_refl.
+  - destruct (String.eqb (tname u) (tname t)) eqn:E.
+    + exfalso. assert (X : existsb (fun v => String.eqb (tname v) (tname u)) l = true).
+      { apply existsb_exists. exists t. split; [assumption|]. rewrite String.eqb_sym. exact E. }
+      rewrite X in S1. discriminate.
+    + apply IH; assumption.
+Qed.
+
+(* every cell of the covered area lies in some tile: lifted from the 540 ten-degree boxes *)
+Lemma tile_covering : forall la lo, -14400 <= la < 21600 -> -43200 <= lo < 43200 ->
+  exists t, In t tiles /\ tlat0 t * 240 <= la < tlat1 t * 240 /\ tlon0 t * 240 <= lo < tlon1 t * 240.
+Proof.
+  intros la lo Hla Hlo. destruct table_parts as (_ & _ & _ & _ & S & _).
+  rewrite forallb_forall in S.
+  set (p := (la + 14400) / 2400). set (q := (lo + 43200) / 2400).
+  assert (Hp : 0 <= p < 15 /\ 2400 * p <= la + 14400 < 2400 * p + 2400) by (unfold p; lia).
+  assert (Hq : 0 <= q < 36 /\ 2400 * q <= lo + 43200 < 2400 * q + 2400) by (unfold q; lia).
+  specialize (S (p, q)).
+  assert (I : In (p, q) boxes).
+  { unfold boxes. apply in_prod; apply in_zrange; lia. }
+  specialize (S I). apply existsb_exists in S. destruct S as (t & Ht & B).
+  exists t. split; [assumption|]. unfold box_in in B. cbn [fst snd] in B. lia.
+Qed.
+
+(* ------------------------------------------------------------------ get_tiles *)
+
+Lemma norm_lo_id : forall D x, 0 < D -> -180 * D <= x < 180 * D -> norm_lo D x = x.
+Proof.
+  intros D x HD Hx. unfold norm_lo. cbv zeta.
+  destruct (Z_lt_le_dec x 0) as [N|P].
+  - replace (x mod (360 * D)) with (x + 360 * D).
+    + destruct (180 * D <=? x + 360 * D) eqn:E; lia.
+    + symmetry. replace x with ((x + 360 * D) + (-1) * (360 * D)) at 1 by lia.
+      rewrite Z.mod_add by lia. apply Z.mod_small. lia.
+  - rewrite Z.mod_small by lia. destruct (180 * D <=? x) eqn:E; lia.
+Qed.
+
+Lemma norm_hi_id : forall D x, 0 < D -> -180 * D < x <= 180 * D -> norm_hi D x = x.
+Proof.
+  intros D x HD Hx. unfold norm_hi. cbv zeta.
+  destruct (Z_lt_le_dec x 0) as [N|P].
+  - replace (x mod (360 * D)) with (x + 360 * D).
+    + destruct (180 * D <? x + 360 * D) eqn:E; lia.
+    + symmetry. replace x with ((x + 360 * D) + (-1) * (360 * D)) at 1 by lia.
+      rewrite Z.mod_add by lia. apply Z.mod_small. lia.
+  - rewrite Z.mod_small by lia. destruct (180 * D <? x) eqn:E; lia.
+Qed.
+
+(* the rectangle and the tile share area: each begins before the other ends, in both directions *)
+Definition shares_area (r : rect) (t : tile) : Prop :=
+  rlat0 r < tlat1 t * rD r /\ tlat0 t * rD r < rlat1 r /\
+  rlon0 r < tlon1 t * rD r /\ tlon0 t * rD r < rlon1 r.
+
+Lemma do_overlap_iff : forall r t, in_coverage r -> In t tiles ->
+  (do_overlap (rD r) (rlat0 r) (norm_lo (rD r) (rlon0 r)) (rlat1 r) (norm_hi (rD r) (rlon1 r)) t = true
+   <-> shares_area r t).
+Proof.
+  intros r t Hc Ht. pose proof (tile_facts_of t Ht) as F. destruct F.
+  pose proof HW_pos as (HH & HWW).
+  destruct Hc as (HD & H1 & H2 & H3 & H4 & H5 & H6).
+  rewrite norm_lo_id, norm_hi_id by lia.
+  unfold do_overlap, shares_area. cbv zeta.
+  assert (tlat0 t * rD r < tlat1 t * rD r) by (apply Z.mul_lt_mono_pos_r; lia).
+  assert (tlon0 t * rD r < tlon1 t * rD r) by (apply Z.mul_lt_mono_pos_r; lia).
+  rewrite andb_true_iff, !Z.ltb_lt. lia.
+Qed.
+
+Lemma get_tiles_exact : forall r, in_coverage r -> forall name,
+  In name (get_tiles r) <-> exists t, In t tiles /\ tname t = name /\ shares_area r t.
+Proof.
+  intros r Hc name. unfold get_tiles, get_tiles_with. cbv zeta. rewrite in_map_iff. split.
+  - intros (t & E & I). apply filter_In in I. destruct I as (I & O).
+    exists t. split; [assumption|]. split; [assumption|]. apply (do_overlap_iff r t Hc I). exact O.
+  - intros (t & I & E & S). exists t. split; [assumption|]. apply filter_In. split; [assumption|].
+    apply (do_overlap_iff r t Hc I). exact S.
+Qed.
+
+(* each tile is named at most once *)
+Lemma nodup_names_spec : forall l, nodup_names l = true -> NoDup (map tname l).
+Proof.
+  induction l as [|t l IH]; intros S; cbn [map]; [constructor|].
+  cbn [nodup_names] in S. apply andb_prop in S. destruct S as [S1 S2].
+  constructor; [|now apply IH].
+  intros I. apply in_map_iff in I. destruct I as (u & E & I).
+  assert (X : existsb (fun v => String.eqb (tname v) (tname t)) l = true).
+  { apply existsb_exists. exists u. split; [assumption|]. rewrite E. apply String.eqb_refl. }
+  rewrite X in S1. discriminate.
+Qed.
+
+Lemma NoDup_map_filter : forall {A B} (f : A -> B) p l, NoDup (map f l) -> NoDup (map f (filter p l)).
+Proof.
+  intros A B f p; induction l as [|x l IH]; intros N; cbn [filter map]; [constructor|].
+  cbn [map] in N. inversion N as [|? ? N1 N2]; subst.
+  destruct (p x); [|now apply IH]. cbn [map]. constructor; [|now apply IH].
+  intros I. apply N1. apply in_map_iff in I. destruct I as (y & E & I). apply filter_In in I.
+  apply in_map_iff. exists y. tauto.
+Qed.
+
+Lemma get_tiles_nodup : forall r, NoDup (get_tiles r).
+Proof.
+  intros r. unfold get_tiles, get_tiles_with. cbv zeta. apply NoDup_map_filter.
+  apply nodup_names_spec. destruct table_parts as (_ & _ & _ & _ & _ & S & _). exact S.
+Qed.
+
+(* the tree as found: lon_min = -180 is mapped to +180 and no tile is named (defect #19) *)
+Lemma get_tiles_asis_wrong :
+  let r := mkRect 1 10 (-180) 11 (-179) in
+  in_coverage r /\ get_tiles_asis r = [] /\ get_tiles r <> [].
+Proof. vm_compute. repeat split; try discriminate; intros; discriminate. Qed.
+
+(* ------------------------------------------------------------------ grids of a tile *)
+
+Fixpoint zlist_eqb (a b : list Z) : bool :=
+  match a, b with
+  | [], [] => true
+  | x :: a', y :: b' => (x =? y) && zlist_eqb a' b'
+  | _, _ => false
+  end.
+
+Lemma zlist_eqb_eq : forall a b, zlist_eqb a b = true -> a = b.
+Proof.
+  induction a as [|x a IH]; intros [|y b] E; cbn [zlist_eqb] in E; try discriminate; [reflexivity|].
+  apply andb_prop in E. destruct E as [E1 E2]. f_equal; [lia|now apply IH].
+Qed.
+
+Lemma tile_grids_check :
+  forallb (fun t => zlist_eqb (native_lats (tile_rect t)) (tile_lats t) &&
+                    zlist_eqb (native_lons (tile_rect t)) (tile_lons t)) tiles = true.
+Proof. vm_compute. reflexivity. Qed.
+
+Lemma native_of_tile : forall t, In t tiles ->
+  native_lats (tile_rect t) = tile_lats t /\ native_lons (tile_rect t) = tile_lons t.
+Proof.
+  intros t Ht. pose proof tile_grids_check as C. rewrite forallb_forall in C. specialize (C t Ht).
+  apply andb_prop in C. destruct C as [C1 C2]. split; now apply zlist_eqb_eq.
+Qed.
+
+(* the unrepaired latitude arithmetic: an unaligned rectangle is not covered (defect #18) *)
+Lemma native_lats_asis_wrong :
+  let r := mkRect 1000 10001 10000 10050 10100 in      (* 10.001 .. 10.05 N, 10 .. 10.1 E *)
+  in_coverage r /\ lat_ok r (native_lats_asis r) = false /\ lat_ok r (native_lats r) = true.
+Proof. vm_compute. repeat split; try reflexivity; intros; discriminate. Qed.
+
+(* ------------------------------------------------------------------ tile cache *)
+
+Fixpoint trace (c : list string) (reqs : list string) : list (string * bool) :=
+  match reqs with
+  | [] => []
+  | n :: rs => if cached c n then (n, false) :: trace c rs else (n, true) :: trace (n :: c) rs
+  end.
+
+Lemma run_cache_trace : forall reqs c log, snd (fold_left cache_step reqs (c, log)) = log ++ trace c reqs.
+Proof.
+  induction reqs as [|n rs IH]; intros c log; cbn [fold_left trace].
+  - now rewrite app_nil_r.
+  - unfold cache_step at 2. destruct (cached c n); rewrite IH, <- app_assoc; reflexivity.
+Qed.
+
+Lemma cached_cons : forall c n x, cached (n :: c) x = String.eqb x n || cached c x.
+Proof. reflexivity. Qed.
+
+Lemma cached_true_eq : forall c n x, String.eqb x n = true -> cached c n = true -> cached c x = true.
+Proof. intros c n x E. apply String.eqb_eq in E. now subst. Qed.
+
+Lemma trace_spec : forall reqs c k name, nth_error reqs k = Some name ->
+  nth_error (trace c reqs) k = Some (name, negb (cached c name || cached (firstn k reqs) name)).
+Proof.
+  induction reqs as [|n rs IH]; intros c k name Hk; [destruct k; discriminate|].
+  destruct k as [|k]; cbn [nth_error firstn trace] in *.
+  - inversion Hk; subst. destruct (cached c name) eqn:E; cbn; reflexivity.
+  - destruct (cached c n) eqn:E; cbn [nth_error]; rewrite (IH _ _ _ Hk); do 3 f_equal;
+      rewrite !cached_cons.
+    + destruct (String.eqb name n) eqn:En.
+      * rewrite (cached_true_eq c n name En E). reflexivity.
+      * reflexivity.
+    + destruct (String.eqb name n), (cached c name), (cached (firstn k rs) name); reflexivity.
+Qed.
+
+Lemma cache_law : forall init reqs,
+  map fst (snd (run_cache init reqs)) = reqs /\
+  forall k name, nth_error reqs k = Some name ->
+    nth_error (snd (run_cache init reqs)) k =
+    Some (name, negb (cached init name || cached (firstn k reqs) name)).
+Proof.
+  intros init reqs. unfold run_cache. rewrite run_cache_trace. cbn [app]. split.
+  - revert init. induction reqs as [|n rs IH]; intros c; cbn [trace map]; [reflexivity|].
+    destruct (cached c n); cbn [map fst]; now rewrite IH.
+  - intros k name Hk. now apply trace_spec.
+Qed.
+
+(* ------------------------------------------------------------------ masks are index intervals *)
+
+Lemma nonzero_interval : forall (f : Z -> Z) lo hi a b n k,
+  (forall x, k <= x < k + Z.of_nat n -> ((lo <=? f x) && (f x <? hi)) = ((a <=? x) && (x <? b))) ->
+  nonzero_from k (in_mask lo hi (map f (zrange k n))) = arange (Z.max k a) (Z.min (k + Z.of_nat n) b).
+Proof.
+  intros f lo hi a b. unfold in_mask. induction n as [|n IH]; intros k Hf.
+  - cbn. symmetry. apply arange_nil. lia.
+  - cbn [zrange map nonzero_from].
+    rewrite (Hf k) by lia. rewrite IH by (intros x Hx; apply Hf; lia).
+    destruct ((a <=? k) && (k <? b)) eqn:E.
+    + rewrite (arange_cons (Z.max k a)) by lia. f_equal; [lia|]. f_equal; lia.
+    + destruct (Z_lt_le_dec k a).
+      * f_equal; lia.
+      * rewrite !arange_nil by lia. reflexivity.
+Qed.
+
+Lemma map_zrange_0 : forall {A} (f : Z -> A) n a, map f (zrange a n) = map (fun i => f (i + a)) (zrange 0 n).
+Proof. intros A f n a. rewrite <- map_zrange_shift. f_equal. Qed.
+
+Lemma nth_map_zrange : forall (f : Z -> Z) n a k d, (k < n)%nat -> nth k (map f (zrange a n)) d = f (a + Z.of_nat k).
+Proof.
+  intros f; induction n as [|n IH]; intros a k d Hk; [lia|].
+  destruct k as [|k]; cbn [zrange map nth]; [f_equal; lia|]. rewrite IH by lia. f_equal; lia.
+Qed.
+
+Definition K0 (t : tile) : Z := 10801 - 120 * tlat1 t.     (* 1-based global row of tile row 0 *)
+Definition J0 (t : tile) : Z := 120 * tlon0 t + 21600.     (* global column of tile column 0 *)
+
+Lemma tile_lat_eq : forall t x, In t tiles -> tile_lat t x = lat_hc (K0 t + x).
+Proof.
+  intros t x Ht. destruct (tile_facts_of t Ht). pose proof HW_pos as (HH & HWW).
+  unfold tile_lat, linspace, lat_hc, K0.
+  replace (tlat1 t * 240 - 1 - (tlat0 t * 240 + 1)) with (2 * (H - 1)) by lia.
+  rewrite Z.div_mul by lia. lia.
+Qed.
+
+Lemma tile_lon_eq : forall t x, In t tiles -> tile_lon t x = lon_hc (J0 t + x).
+Proof.
+  intros t x Ht. destruct (tile_facts_of t Ht). pose proof HW_pos as (HH & HWW).
+  unfold tile_lon, linspace, lon_hc, J0.
+  replace (tlon1 t * 240 - 1 - (tlon0 t * 240 + 1)) with (2 * (W - 1)) by lia.
+  rewrite Z.div_mul by lia. lia.
+Qed.
+
+Lemma rows_s_eq : forall t top bot, In t tiles ->
+  nonzero (in_mask (lat_hc bot - 1) (lat_hc top + 1) (tile_lats t)) =
+  arange (Z.max 0 (top - K0 t)) (Z.min H (bot + 1 - K0 t)).
+Proof.
+  intros t top bot Ht. pose proof HW_pos as (HH & HWW). unfold nonzero, tile_lats. unfold arange at 1.
+  rewrite (nonzero_interval (tile_lat t) _ _ (top - K0 t) (bot + 1 - K0 t)).
+  - f_equal; lia.
+  - intros x Hx. rewrite tile_lat_eq by assumption. unfold lat_hc. lia.
+Qed.
+
+Lemma cols_s_eq : forall t lft rgt, In t tiles ->
+  nonzero (in_mask (lon_hc lft - 1) (lon_hc rgt + 1) (tile_lons t)) =
+  arange (Z.max 0 (lft - J0 t)) (Z.min W (rgt + 1 - J0 t)).
+Proof.
+  intros t lft rgt Ht. pose proof HW_pos as (HH & HWW). unfold nonzero, tile_lons. unfold arange at 1.
+  rewrite (nonzero_interval (tile_lon t) _ _ (lft - J0 t) (rgt + 1 - J0 t)).
+  - f_equal; lia.
+  - intros x Hx. rewrite tile_lon_eq by assumption. unfold lon_hc. lia.
+Qed.
+
+Lemma rows_d_eq : forall t top n, In t tiles ->
+  nonzero (in_mask (tlat0 t * 240) (tlat1 t * 240) (map lat_hc (zrange top n))) =
+  arange (Z.max 0 (K0 t - top)) (Z.min (Z.of_nat n) (K0 t + H - top)).
+Proof.
+  intros t top n Ht. destruct (tile_facts_of t Ht). unfold nonzero. rewrite map_zrange_0.
+  rewrite (nonzero_interval (fun i => lat_hc (i + top)) _ _ (K0 t - top) (K0 t + H - top)).
+  - f_equal; lia.
+  - intros x Hx. unfold lat_hc, K0. lia.
+Qed.
+
+Lemma cols_d_eq : forall t lft m, In t tiles ->
+  nonzero (in_mask (tlon0 t * 240) (tlon1 t * 240) (map lon_hc (zrange lft m))) =
+  arange (Z.max 0 (J0 t - lft)) (Z.min (Z.of_nat m) (J0 t + W - lft)).
+Proof.
+  intros t lft m Ht. destruct (tile_facts_of t Ht). unfold nonzero. rewrite map_zrange_0.
+  rewrite (nonzero_interval (fun i => lon_hc (i + lft)) _ _ (J0 t - lft) (J0 t + W - lft)).
+  - f_equal; lia.
+  - intros x Hx. unfold lon_hc, J0. lia.
+Qed.
+
+(* ------------------------------------------------------------------ the masked assignment *)
+
+Lemma combine_app_eq : forall {A B} (l1 l2 : list A) (m1 m2 : list B), List.length l1 = List.length m1 ->
+  combine (l1 ++ l2) (m1 ++ m2) = combine l1 m1 ++ combine l2 m2.
+Proof.
+  intros A B; induction l1 as [|x l1 IH]; intros l2 [|y m1] m2 E; cbn in *; try discriminate; [reflexivity|].
+  f_equal. apply IH. now inversion E.
+Qed.
+
+Lemma assign_app : forall e p1 p2 v1 v2, List.length p1 = List.length v1 ->
+  assign e (p1 ++ p2) (v1 ++ v2) = assign (assign e p1 v1) p2 v2.
+Proof. intros. unfold assign. rewrite combine_app_eq by assumption. apply fold_left_app. Qed.
+
+Lemma assign_row : forall (g : Z -> Z) i0 cnt bd bs e i j,
+  assign e (map (pair i0) (zrange bd cnt)) (map g (zrange bs cnt)) i j =
+  if (i =? i0) && (bd <=? j) && (j <? bd + Z.of_nat cnt) then g (j - bd + bs) else e i j.
+Proof.
+  intros g i0. induction cnt as [|cnt IH]; intros bd bs e i j.
+  - cbn [zrange map assign combine fold_left].
+    destruct ((i =? i0) && (bd <=? j) && (j <? bd + Z.of_nat 0)) eqn:E; [exfalso; lia|reflexivity].
+  - cbn [zrange map]. unfold assign in *. cbn [combine fold_left fst snd]. rewrite IH.
+    unfold upd. cbn [fst snd].
+    destruct ((i =? i0) && (bd + 1 <=? j) && (j <? bd + 1 + Z.of_nat cnt)) eqn:E1;
+    destruct ((i =? i0) && (bd <=? j) && (j <? bd + Z.of_nat (S cnt))) eqn:E2;
+    destruct ((i =? i0) && (j =? bd)) eqn:E3;
+    first [reflexivity | (f_equal; lia) | (exfalso; lia)].
+Qed.
+
+Lemma assign_box : forall (f : Z -> Z -> Z) cc bd bs cr ad as_ e i j,
+  assign e (flat_map (fun i => map (pair i) (zrange bd cc)) (zrange ad cr))
+           (flat_map (fun r => map (f r) (zrange bs cc)) (zrange as_ cr)) i j =
+  if (ad <=? i) && (i <? ad + Z.of_nat cr) && (bd <=? j) && (j <? bd + Z.of_nat cc)
+  then f (i - ad + as_) (j - bd + bs) else e i j.
+Proof.
+  intros f cc bd bs. induction cr as [|cr IH]; intros ad as_ e i j.
+  - cbn [zrange flat_map assign combine fold_left].
+    destruct ((ad <=? i) && (i <? ad + Z.of_nat 0) && (bd <=? j) && (j <? bd + Z.of_nat cc)) eqn:E;
+      [exfalso; lia|reflexivity].
+  - cbn [zrange flat_map]. rewrite assign_app by (rewrite !map_length, !zrange_length; reflexivity).
+    rewrite IH. rewrite assign_row.
+    destruct ((ad + 1 <=? i) && (i <? ad + 1 + Z.of_nat cr) && (bd <=? j) && (j <? bd + Z.of_nat cc)) eqn:E1;
+    destruct ((i =? ad) && (bd <=? j) && (j <? bd + Z.of_nat cc)) eqn:E2;
+    destruct ((ad <=? i) && (i <? ad + Z.of_nat (S cr)) && (bd <=? j) && (j <? bd + Z.of_nat cc)) eqn:E3;
+    first [reflexivity | (f_equal; lia) | (exfalso; lia)].
+Qed.
+
+Lemma flat_map_const_length : forall {A B} (g : A -> list B) c l,
+  (forall x, List.length (g x) = c) -> List.length (flat_map g l) = (List.length l * c)%nat.
+Proof.
+  intros A B g c; induction l as [|x l IH]; intros Hg; cbn [flat_map List.length]; [reflexivity|].
+  rewrite app_length, Hg, IH by assumption. lia.
+Qed.
+
+(* ------------------------------------------------------------------ block bounds *)
+
+Lemma fold_min_lat : forall n a, fold_left Z.min (map lat_hc (zrange (a + 1) n)) (lat_hc a) = lat_hc (a + Z.of_nat n).
+Proof.
+  induction n as [|n IH]; intros a; cbn [zrange map fold_left]; [f_equal; lia|].
+  replace (Z.min (lat_hc a) (lat_hc (a + 1))) with (lat_hc (a + 1)) by (unfold lat_hc; lia).
+  rewrite IH. f_equal; lia.
+Qed.
+
+Lemma fold_max_lat : forall n a acc, lat_hc a <= acc -> fold_left Z.max (map lat_hc (zrange a n)) acc = acc.
+Proof.
+  induction n as [|n IH]; intros a acc Ha; cbn [zrange map fold_left]; [reflexivity|].
+  rewrite Z.max_l by lia. apply IH. unfold lat_hc in *. lia.
+Qed.
+
+Lemma fold_max_lon : forall n a, fold_left Z.max (map lon_hc (zrange (a + 1) n)) (lon_hc a) = lon_hc (a + Z.of_nat n).
+Proof.
+  induction n as [|n IH]; intros a; cbn [zrange map fold_left]; [f_equal; lia|].
+  replace (Z.max (lon_hc a) (lon_hc (a + 1))) with (lon_hc (a + 1)) by (unfold lon_hc; lia).
+  rewrite IH. f_equal; lia.
+Qed.
+
+Lemma fold_min_lon : forall n a acc, acc <= lon_hc a -> fold_left Z.min (map lon_hc (zrange a n)) acc = acc.
+Proof.
+  induction n as [|n IH]; intros a acc Ha; cbn [zrange map fold_left]; [reflexivity|].
+  rewrite Z.min_l by lia. apply IH. unfold lon_hc in *. lia.
+Qed.
+
+(* ------------------------------------------------------------------ the mosaic *)
+
+Section Mosaic.
+  Variable dem : string -> Z -> Z -> Z.
+  Variable r : rect.
+  Hypothesis Hc : in_coverage r.
+
+  Local Notation top := (row_top r).
+  Local Notation bot := (row_bot r).
+  Local Notation lft := (col_left r).
+  Local Notation rgt := (col_right r).
+  Local Notation lats := (native_lats r).
+  Local Notation lons := (native_lons r).
+  Local Notation blk := (lat_hc bot - 1, lon_hc lft - 1, lat_hc top + 1, lon_hc rgt + 1).
+
+  Lemma block_of_native : block_of lats lons = Some blk.
+  Proof.
+    destruct (native_lats_eq r Hc) as (n & E & Hn). destruct (native_lons_eq r Hc) as (m & F & Hm).
+    rewrite E, F. unfold block_of, list_min, list_max. cbn [zrange map].
+    rewrite fold_min_lat, fold_max_lon.
+    rewrite fold_max_lat by (unfold lat_hc; lia). rewrite fold_min_lon by (unfold lon_hc; lia).
+    replace (top + Z.of_nat n) with bot by lia. replace (lft + Z.of_nat m) with rgt by lia. reflexivity.
+  Qed.
+
+  (* the tile holds the cell [i, j] of the block *)
+  Definition covers_b (t : tile) (i j : Z) : bool :=
+    (K0 t <=? top + i) && (top + i <? K0 t + H) && (J0 t <=? lft + j) && (lft + j <? J0 t + W).
+
+  Lemma tile_step_eq : forall t e, In t tiles ->
+    exists e', tile_step dem blk lats lons (Ok e) (tname t) = Ok e' /\
+      forall i j, 0 <= i <= bot - top -> 0 <= j <= rgt - lft ->
+        e' i j = if covers_b t i j then dem (tname t) (top + i - K0 t) (lft + j - J0 t) else e i j.
+  Proof.
+    intros t e Ht.
+    destruct (native_lats_eq r Hc) as (n & E & Hn). destruct (native_lons_eq r Hc) as (m & F & Hm).
+    pose proof HW_pos as (HH & HWW).
+    unfold tile_step. rewrite (find_tile_in t Ht).
+    rewrite (rows_s_eq t top bot Ht), (cols_s_eq t lft rgt Ht).
+    rewrite E, F, (rows_d_eq t top (S n) Ht), (cols_d_eq t lft (S m) Ht).
+    unfold arange.
+    replace (Z.to_nat (Z.min (Z.of_nat (S n)) (K0 t + H - top) - Z.max 0 (K0 t - top)))
+      with (Z.to_nat (Z.min H (bot + 1 - K0 t) - Z.max 0 (top - K0 t))) by lia.
+    replace (Z.to_nat (Z.min (Z.of_nat (S m)) (J0 t + W - lft) - Z.max 0 (J0 t - lft)))
+      with (Z.to_nat (Z.min W (rgt + 1 - J0 t) - Z.max 0 (lft - J0 t))) by lia.
+    set (cr := Z.to_nat (Z.min H (bot + 1 - K0 t) - Z.max 0 (top - K0 t))).
+    set (cc := Z.to_nat (Z.min W (rgt + 1 - J0 t) - Z.max 0 (lft - J0 t))).
+    rewrite (flat_map_const_length _ cc) by (intros; now rewrite map_length, zrange_length).
+    rewrite (flat_map_const_length _ cc) by (intros; now rewrite map_length, zrange_length).
+    rewrite !zrange_length, Nat.eqb_refl.
+    eexists. split; [reflexivity|].
+    intros i j Hi Hj. rewrite (assign_box (dem (tname t))). unfold covers_b.
+    destruct ((Z.max 0 (K0 t - top) <=? i) && (i <? Z.max 0 (K0 t - top) + Z.of_nat cr) &&
+              (Z.max 0 (J0 t - lft) <=? j) && (j <? Z.max 0 (J0 t - lft) + Z.of_nat cc)) eqn:E1;
+    destruct ((K0 t <=? top + i) && (top + i <? K0 t + H) && (J0 t <=? lft + j) && (lft + j <? J0 t + W)) eqn:E2;
+    first [reflexivity | (f_equal; lia) | (exfalso; unfold cr, cc in *; lia)].
+  Qed.
+
+  Definition good (e : Z -> Z -> Z) (i j : Z) : Prop :=
+    exists t, In t tiles /\ covers_b t i j = true /\ e i j = dem (tname t) (top + i - K0 t) (lft + j - J0 t).
+
+  Lemma fold_tiles : forall l, (forall t, In t l -> In t tiles) -> forall e,
+    exists e', fold_left (tile_step dem blk lats lons) (map tname l) (Ok e) = Ok e' /\
+      forall i j, 0 <= i <= bot - top -> 0 <= j <= rgt - lft ->
+        (good e i j -> good e' i j) /\ ((exists t, In t l /\ covers_b t i j = true) -> good e' i j).
+  Proof.
+    induction l as [|a l IH]; intros Hl e.
+    - exists e. split; [reflexivity|]. intros i j Hi Hj. split; [auto|]. intros (t & [] & _).
+    - destruct (tile_step_eq a e (Hl a (or_introl eq_refl))) as (e1 & E1 & F1).
+      destruct (IH (fun t Ht => Hl t (or_intror Ht)) e1) as (e2 & E2 & F2).
+      exists e2. split. { cbn [map fold_left]. rewrite E1. exact E2. }
+      intros i j Hi Hj. destruct (F2 i j Hi Hj) as (G1 & G2).
+      assert (Step : good e i j \/ covers_b a i j = true -> good e1 i j).
+      { intros G. destruct (covers_b a i j) eqn:Cv.
+        - exists a. split; [apply Hl; now left|]. split; [assumption|].
+          rewrite F1 by assumption. now rewrite Cv.
+        - destruct G as [(t & It & Ct & Et)|G]; [|discriminate].
+          exists t. split; [assumption|]. split; [assumption|].
+          rewrite F1 by assumption. rewrite Cv. exact Et. }
+      split.
+      + intros G. apply G1, Step. now left.
+      + intros (t & [->|It] & Ct).
+        * apply G1, Step. now right.
+        * apply G2. exists t. tauto.
+  Qed.
+
+  Lemma mosaic_cells : exists e, elevation dem r = Ok e /\
+    forall i j, (i < List.length lats)%nat -> (j < List.length lons)%nat ->
+      pixel_at dem (nth i lats 0) (nth j lons 0) (e (Z.of_nat i) (Z.of_nat j)).
+  Proof.
+    destruct (native_lats_eq r Hc) as (n & E & Hn). destruct (native_lons_eq r Hc) as (m & F & Hm).
+    pose proof (rows_cols_range r Hc) as R. pose proof HW_pos as (HH & HWW).
+    unfold elevation. rewrite block_of_native. unfold block_tiles, get_tiles, get_tiles_with.
+    cbn [rD rlat0 rlon0 rlat1 rlon1].
+    rewrite norm_lo_id, norm_hi_id by (unfold lon_hc; lia).
+    set (l := filter (do_overlap 240 (lat_hc bot - 1) (lon_hc lft - 1) (lat_hc top + 1) (lon_hc rgt + 1)) tiles).
+    assert (Hl : forall t, In t l -> In t tiles) by (intros t Ht; apply filter_In in Ht; tauto).
+    destruct (fold_tiles l Hl (fun _ _ => 0)) as (e' & Ee & Fe).
+    exists e'. split; [exact Ee|].
+    intros i j Hi Hj. rewrite E in Hi. rewrite F in Hj. rewrite map_length, zrange_length in Hi, Hj.
+    assert (Ri : 0 <= Z.of_nat i <= bot - top) by lia. assert (Rj : 0 <= Z.of_nat j <= rgt - lft) by lia.
+    destruct (Fe _ _ Ri Rj) as (_ & G2).
+    destruct (tile_covering (lat_hc (top + Z.of_nat i)) (lon_hc (lft + Z.of_nat j))) as (t & It & Tla & Tlo);
+      [unfold lat_hc; lia|unfold lon_hc; lia|].
+    destruct (tile_facts_of t It).
+    assert (Cv : covers_b t (Z.of_nat i) (Z.of_nat j) = true).
+    { unfold covers_b, K0, J0. unfold lat_hc, lon_hc in Tla, Tlo. lia. }
+    assert (Il : In t l).
+    { apply filter_In. split; [assumption|]. unfold do_overlap.
+      unfold covers_b, K0, J0 in Cv. unfold lat_hc, lon_hc.
+      rewrite andb_true_iff, !Z.ltb_lt. lia. }
+    destruct (G2 (ex_intro _ t (conj Il Cv))) as (t' & It' & Ct' & Et').
+    exists t', (top + Z.of_nat i - K0 t'), (lft + Z.of_nat j - J0 t').
+    unfold covers_b in Ct'.
+    split; [assumption|]. split; [lia|]. split; [lia|].
+    rewrite tile_lat_eq, tile_lon_eq by assumption.
+    rewrite E, F, !nth_map_zrange by lia.
+    split; [f_equal; lia|]. split; [f_equal; lia|]. exact Et'.
+  Qed.
+End Mosaic.
+
+(* "the one tile pixel": a cell centre belongs to exactly one pixel of exactly one tile *)
+Lemma pixel_unique : forall t1 r1 c1 t2 r2 c2,
+  In t1 tiles -> In t2 tiles -> 0 <= r1 < H -> 0 <= c1 < W -> 0 <= r2 < H -> 0 <= c2 < W ->
+  tile_lat t1 r1 = tile_lat t2 r2 -> tile_lon t1 c1 = tile_lon t2 c2 ->
+  t1 = t2 /\ r1 = r2 /\ c1 = c2.
+Proof.
+  intros t1 r1 c1 t2 r2 c2 I1 I2 R1 C1 R2 C2 Ela Elo.
+  rewrite !tile_lat_eq in Ela by assumption. rewrite !tile_lon_eq in Elo by assumption.
+  unfold lat_hc, K0 in Ela. unfold lon_hc, J0 in Elo.
+  destruct (tile_facts_of t1 I1). destruct (tile_facts_of t2 I2).
+  destruct (tiles_disjoint t1 t2 I1 I2) as [->|Dj].
+  - split; [reflexivity|]. lia.
+  - exfalso. unfold disjoint_b in Dj. lia.
+Qed.
